@@ -37,6 +37,17 @@ class Unsupported(Exception):
     pass
 
 
+# Overflow-checked mode (Gen/KernelsAstChk.v, `program_chk`): every signed integer +, -, *, /,
+# unary -, ++, --, op= is wrapped in `IChk <width of its C type>`: the MiniC interpreter then
+# stops with `Err (Overflow ..)` where the C program has undefined behaviour.  `%`, `&`, `|`
+# cannot overflow (INT_MIN % -1 aside, which is flagged through `/` only when written so).
+CHK = False
+
+
+def chk(w, text):
+    return f"(IChk {w} {text})" if CHK else text
+
+
 class TranslatorError(Exception):
     """clang failed / the AST has an unexpected shape at file level (fail-closed for the file)."""
 
@@ -399,7 +410,9 @@ class Fn:
                 return self.tr_expr(a)
             ka, ta = self.tr_expr(a)
             if op == "-":
-                return (ka, f"(IUn INeg {ta})" if ka == "i" else f"(FUn FNeg {ta})")
+                if ka == "i":
+                    return ("i", chk(classify(n["type"])[1], f"(IUn INeg {ta})"))
+                return ("f", f"(FUn FNeg {ta})")
             if op == "!":
                 if ka != "i":
                     raise Unsupported("! of a double")
@@ -496,7 +509,8 @@ class Fn:
         if ka == "i":
             if op not in IBIN:
                 raise Unsupported(f"integer operator {op}")
-            return ("i", f"(IBin {IBIN[op]} {ta} {tb})")
+            tx = f"(IBin {IBIN[op]} {ta} {tb})"
+            return ("i", chk(rk[1], tx) if op in ("+", "-", "*", "/") else tx)
         if op not in FBIN:
             raise Unsupported(f"double operator {op}")
         return ("f", f"(FBin {FBIN[op]} {ta} {tb})")
@@ -814,7 +828,7 @@ class Fn:
             if kk != "i":
                 raise Unsupported("++/-- on a double")
             op = "IAdd" if n["opcode"] == "++" else "ISub"
-            return [self.write_lvalue(lv, "i", f"(IBin {op} {rd} {iconst(1)})")]
+            return [self.write_lvalue(lv, "i", chk(classify(n["type"])[1], f"(IBin {op} {rd} {iconst(1)})"))]
         if k == "BinaryOperator" and n["opcode"] == ",":
             return self.tr_expr_stmt(n["inner"][0]) + self.tr_expr_stmt(n["inner"][1])
         if k == "BinaryOperator" and n["opcode"] == "=":
@@ -845,7 +859,10 @@ class Fn:
             if ck == "i":
                 if lk != "i" or op not in IBIN:
                     raise Unsupported(f"compound assignment {n['opcode']}")
-                return [self.write_lvalue(lv, "i", f"(IBin {IBIN[op]} {rd} {tx})")]
+                tx2 = f"(IBin {IBIN[op]} {rd} {tx})"
+                if op in ("+", "-", "*", "/"):
+                    tx2 = chk(classify(n["computeResultType"])[1], tx2)
+                return [self.write_lvalue(lv, "i", tx2)]
             if op not in FBIN:
                 raise Unsupported(f"compound assignment {n['opcode']}")
             if lk == "f":
@@ -1056,14 +1073,28 @@ Open Scope Z_scope.
 """
 
 
-def render(repo):
-    tu = TU(repo)
-    funs = tu.translate()
-    parts = [HEADER]
+def render(repo, checked=False):
+    """checked=True: the overflow-checked program (`<fn>_chk : fundef`, `program_chk`)"""
+    global CHK
+    old, CHK = CHK, bool(checked)
+    try:
+        tu = TU(repo)
+        funs = tu.translate()
+    finally:
+        CHK = old
+    sfx = "_chk" if checked else ""
+    head = HEADER
+    if checked:
+        head = head.replace("-> MiniC.  Do not edit. *)",
+                            "-> MiniC, OVERFLOW-CHECKED variant:\n   every signed integer +, -, *, /, unary -, ++, --, op= carries [IChk <width>].  "
+                            "Do not edit. *)")
+    parts = [head]
     for key, ident, text, reason in funs:
+        ident = ident[:-4] + sfx + "_def" if checked else ident
         parts.append(f"(* {key} *)\nDefinition {ident} : fundef :=\n{text}.\n\n")
-    parts.append("Definition program : program := [\n" +
-                 ";\n".join(f"  ({cq(key)}, {ident})" for key, ident, _, _ in funs) + "].\n")
+    parts.append(f"Definition program{sfx} : program := [\n" +
+                 ";\n".join(f"  ({cq(key)}, {(ident[:-4] + sfx + '_def') if checked else ident})"
+                             for key, ident, _, _ in funs) + "].\n")
     return "".join(parts)
 
 
@@ -1084,21 +1115,21 @@ def sources_hash(repo):
     return h.hexdigest()[:24]
 
 
-def render_cached(repo):
-    """render(repo), cached by the hash of the sources and of this translator"""
+def render_cached(repo, checked=False):
+    """render(repo, checked), cached by the hash of the sources and of this translator"""
     verif = Path(__file__).resolve().parent.parent
     cache = verif / ".cache" / "ctrans"
-    tag = sources_hash(repo)
+    tag = sources_hash(repo) + ("_chk" if checked else "")
     f = cache / f"{tag}.v"
     if f.exists():
         return f.read_text()
-    text = render(repo)
+    text = render(repo, checked)
     try:
         cache.mkdir(parents=True, exist_ok=True)
         tmp = cache / f"{tag}.{os.getpid()}"
         tmp.write_text(text)
         os.rename(tmp, f)
-        for old in sorted(cache.glob("*.v"), key=lambda p: p.stat().st_mtime)[:-8]:
+        for old in sorted(cache.glob("*.v"), key=lambda p: p.stat().st_mtime)[:-16]:
             old.unlink()
     except OSError:
         pass
